@@ -73,6 +73,8 @@ def run_real(scn, choices, wall_s=10.0, chooser=None, max_steps=3000):
         return v
     s.canon = canon
     jobs = {j: HJob(j) for j in bodies}
+    names = {}
+    asked_by_name = {op[1] for ops in scn['clients'] for op in ops if op[0] in ('is_running', 'stop_job')}
 
     def do(jc, op):
         k = op[0]
@@ -81,17 +83,27 @@ def run_real(scn, choices, wall_s=10.0, chooser=None, max_steps=3000):
             return (jc.add_job if k == 'add' else jc.insert_job)(jobs[op[1]], 'n%d' % op[1])
         if k == 'spawn':
             jobs[op[1]].queued = False
-            return jc.spawn_job(jobs[op[1]], 'n%d' % op[1])
+            # a background job may be started without a name (WebApp.queue_file passes an empty one): the agent then names itself,
+            # and that name is the one the job is known, reported and forgotten by
+            # (only jobs nobody asks about by name: the name an agent gives itself is known to the caller of spawn_job alone)
+            given = 'n%d' % op[1] if op[1] in asked_by_name else ['', None, 'n%d' % op[1]][op[1] % 3]
+            if not given:
+                SELF_NAMES[given] = op[1]      # should the directory use the name as given: it still denotes this job
+            agent = jc.spawn_job(jobs[op[1]], given)
+            if agent is not None:
+                names[op[1]] = agent.name
+                SELF_NAMES[agent.name] = op[1]
+            return agent
         if k == 'clear':
             return jc.clear_queue()
         if k == 'stop':
             return jobs[op[1]].request_stop()
         if k == 'stop_job':
-            return jc.stop_job('n%d' % op[1])
+            return jc.stop_job(names.get(op[1], 'n%d' % op[1]))
         if k == 'has_jobs':
             return jc.has_jobs()
         if k == 'is_running':
-            return jc.is_running('n%d' % op[1])
+            return jc.is_running(names.get(op[1], 'n%d' % op[1]))
         if k == 'get_current':
             return jc.get_current()
         if k == 'get_queued':
@@ -149,8 +161,13 @@ def cval(v):
     raise Unmodelled('value %r' % (v,))
 
 
+SELF_NAMES = {}      # the names agents gave themselves (started without a name) -> job number, for the run being converted
+
+
 def key_of(name):
-    if not (name.startswith('n') and name[1:].isdigit()):
+    if name in SELF_NAMES:
+        return SELF_NAMES[name]
+    if not (isinstance(name, str) and name.startswith('n') and name[1:].isdigit()):
         raise Unmodelled('name %r' % name)
     return int(name[1:])
 
